@@ -447,17 +447,22 @@ impl Unifiable {
                 Unifiable::SComplex(new_terms)
             },
             Unifiable::SLinkedList{term: _, next: _, count: _, tail_var: _} => {
+                // Rebuild the list node by node, so that its shape (counts,
+                // tail variable flag, empty list) is preserved exactly.
+                let mut nodes: Vec<(Unifiable, usize, bool)> = vec![];
                 let mut this_list = self;
-                let mut new_terms = vec![];
-                let mut vbar = false;  // vertical bar |
                 while let Unifiable::SLinkedList{term: t, next: n,
                                      count: c, tail_var: tf} = this_list {
-                    new_terms.push(t.recreate_variables(recreated_vars));
-                    if c == 1 && tf { vbar = true; }
+                    nodes.push((t.recreate_variables(recreated_vars), c, tf));
                     this_list = *n;
-                    if this_list == Unifiable::Nil { break; }
                 }
-                return make_linked_list(vbar, new_terms);
+                let mut new_list = this_list;  // Nil
+                while let Some((t, c, tf)) = nodes.pop() {
+                    new_list = Unifiable::SLinkedList{term: Box::new(t),
+                                                      next: Box::new(new_list),
+                                                      count: c, tail_var: tf};
+                }
+                return new_list;
             },
             Unifiable::SFunction{name, terms} => {
                 let mut new_terms: Vec<Unifiable> = vec![];
